@@ -64,21 +64,21 @@ PROPS['C03'] = dict(
 )
 
 PROPS['C04'] = dict(
-    unit_modules=[], driver_modules=['drivers.c04'], level='other',
+    unit_modules=['contracts.c04_evaluate'], driver_modules=['drivers.c04'], level='other',
     level_text='tbd', level_note='tbd', assumptions=COMMON_ASSUMPTIONS,
 )
 PROPS['C05'] = dict(
-    unit_modules=[], driver_modules=['drivers.c04'], level='other',
+    unit_modules=['contracts.c04_evaluate'], driver_modules=['drivers.c04'], level='other',
     level_text='tbd', level_note='tbd', assumptions=COMMON_ASSUMPTIONS,
 )
 
 PROPS['C06'] = dict(
-    unit_modules=[], driver_modules=['drivers.c06'], level='other',
+    unit_modules=['contracts.c04_evaluate'], driver_modules=['drivers.c06'], level='other',
     level_text='tbd', level_note='tbd', assumptions=COMMON_ASSUMPTIONS, driver_budget_s=200,
 )
 
 PROPS['C10'] = dict(
-    unit_modules=[], driver_modules=['drivers.c10'], level='other',
+    unit_modules=['contracts.c10_logical'], driver_modules=['drivers.c10'], level='other',
     level_text='tbd', level_note='tbd', assumptions=COMMON_ASSUMPTIONS,
 )
 
